@@ -221,27 +221,10 @@ where
     Other: AsRef<[u8]>,
 {
     fn partial_cmp(&self, other: &Nsec3<Other>) -> Option<Ordering> {
-        match self.hash_algorithm.partial_cmp(&other.hash_algorithm) {
-            Some(Ordering::Equal) => {}
-            other => return other,
-        }
-        match self.flags.partial_cmp(&other.flags) {
-            Some(Ordering::Equal) => {}
-            other => return other,
-        }
-        match self.iterations.partial_cmp(&other.iterations) {
-            Some(Ordering::Equal) => {}
-            other => return other,
-        }
-        match self.salt.partial_cmp(&other.salt) {
-            Some(Ordering::Equal) => {}
-            other => return other,
-        }
-        match self.next_owner.partial_cmp(&other.next_owner) {
-            Some(Ordering::Equal) => {}
-            other => return other,
-        }
-        self.types.partial_cmp(&other.types)
+        // Needs to agree with `Ord` which uses the canonical order. The
+        // plain order of the salt and the next owner hash differs from
+        // their canonical order (which looks at the length first).
+        Some(self.canonical_cmp(other))
     }
 }
 
